@@ -2,25 +2,52 @@ package headersCache
 
 import (
 	"github.com/ElrondNetwork/elrond-go/config"
+	"github.com/ElrondNetwork/elrond-go/data"
 	"github.com/ElrondNetwork/elrond-go/data/block"
 )
 
-
-// two concurrent read-style calls on a pool that already holds one header of shard 0
+// Symbolic lockset over the pool API: each operation runs once on a pool that already holds headers;
+// shard ids / nonces / hashes are symbolic. Accesses of different operations to the same location
+// (maps are one pseudo-location each), one a write, without a common lock in a conflicting mode = race.
 func Verif_C29_lockset() {
 	pool, _ := NewHeadersPool(config.HeadersPoolConfig{MaxHeadersPerShard: 10, NumElementsToRemoveOnEviction: 1})
 	pool.AddHeader([]byte("h0"), &block.Header{Nonce: 1, ShardID: 0})
+	pool.AddHeader([]byte("h1"), &block.Header{Nonce: 2, ShardID: 1})
 	verifRaceWatch(pool)
-	s1 := verifU32("shard1") & 1
-	s2 := verifU32("shard2") & 1
+	s := func(tag string) uint32 { return verifU32(tag) & 3 }
 	verifRaceBegin("Nonces")
-	_ = pool.Nonces(s1)
+	_ = pool.Nonces(s("s1"))
 	verifRaceEnd()
 	verifRaceBegin("GetNumHeaders")
-	_ = pool.GetNumHeaders(s2)
+	_ = pool.GetNumHeaders(s("s2"))
 	verifRaceEnd()
 	verifRaceBegin("Nonces#2")
-	_ = pool.Nonces(s2)
+	_ = pool.Nonces(s("s3"))
+	verifRaceEnd()
+	verifRaceBegin("Len")
+	_ = pool.Len()
+	_ = pool.MaxSize()
+	verifRaceEnd()
+	verifRaceBegin("GetHeaderByHash")
+	_, _ = pool.GetHeaderByHash([]byte("h0"))
+	verifRaceEnd()
+	verifRaceBegin("GetHeadersByNonceAndShardId")
+	_, _, _ = pool.GetHeadersByNonceAndShardId(1, s("s4"))
+	verifRaceEnd()
+	verifRaceBegin("RegisterHandler")
+	pool.RegisterHandler(func(data.HeaderHandler, []byte) {})
+	verifRaceEnd()
+	verifRaceBegin("AddHeader")
+	pool.AddHeader([]byte("h2"), &block.Header{Nonce: 3, ShardID: s("s5")})
+	verifRaceEnd()
+	verifRaceBegin("RemoveHeaderByHash")
+	pool.RemoveHeaderByHash([]byte("h1"))
+	verifRaceEnd()
+	verifRaceBegin("RemoveHeaderByNonceAndShardId")
+	pool.RemoveHeaderByNonceAndShardId(1, s("s6"))
+	verifRaceEnd()
+	verifRaceBegin("Clear")
+	pool.Clear()
 	verifRaceEnd()
 	verifRaceCheck()
 	verifReach("end")
